@@ -17,6 +17,13 @@ def P(variants, quick_s, thorough_s, rule, probes=None, probes_thorough=None, as
     return d
 
 PROPS = {
+    "C10": P(["asan"], 30, 900,
+             "plans = 1..12 expansions per run sharing one variable store; value strings assembled from ordinary text, $NAME/${NAME}/$(NAME) over set/unset/empty variables, backslash escapes, "
+             "tildes, single- and double-quoted sections, %put/%get (with defaults, nested up to depth 3), %version/%appname/%random/%exec/backquote, and don't-care constructs (unknown %word, lone $, "
+             "unterminated ${ and %get(, trailing backslash, %dirscan), plus values padded to 20300..20470 characters so replacements reach the 20 kB limit; HOME set/unset/empty, 7..12 built-ins; "
+             "the argument is an exact CONFIG_BUFF-byte simulated block; oracle = reference expander written from the stated rules (value checked unless a don't-care construct occurs), NUL-termination and length, "
+             "and a second execution of the whole plan under different heap and stack garbage that must give byte-identical results; distinct = distinct trace hash; non-trivial = >= 3 ops",
+             probes=["value_checked", "value_dont_care", "dollar_mid_line", "backslash_at_end", "unterminated_brace", "nested_call_depth3", "result_hits_limit", "tilde_inside_quotes"]),
     "C11": P(["asan"], 30, 900,
              "plans = 1..4 init/register/parse/free cycles; files are arbitrary byte strings or metacharacter-rich config text (NULs, lines of 20470..20482 and 41000 bytes, missing final newline, "
              "300 unmatched begin lines, empty file, bad magic, %include/%put/%get/%random/%dirscan/$VAR/~ and, in a quarter of the runs, %exec/backquote/%preproc), 0..200 contexts, 7..13 built-ins, "
